@@ -25,6 +25,11 @@ import (
 )
 
 func (a Arch) MarshalControl() (string, error) {
+	if a == (Arch{}) {
+		/* A field that was never set is omitted, like any other empty
+		 * optional field. */
+		return "", nil
+	}
 	return a.String(), nil
 }
 
@@ -32,7 +37,7 @@ func (a Arch) String() string {
 	/* ABI-OS-CPU -- gnu-linux-amd64. Use the shortest name that ParseArch
 	 * reads back as exactly this Arch: "any" and "all" stand for themselves,
 	 * a bare CPU means gnu-linux-CPU, and OS-CPU leaves the ABI open. */
-	if a.ABI == a.OS && a.OS == a.CPU && (a.CPU == "any" || a.CPU == "all" || a.CPU == "") {
+	if a.ABI == a.OS && a.OS == a.CPU && (a.CPU == "any" || a.CPU == "all") {
 		return a.CPU
 	}
 	if !strings.Contains(a.CPU, "-") {
